@@ -34,6 +34,13 @@ Round 8 (payload decoders of structures/*.py):
     expressions in the operands is `if A: (if B: …)`; a variable first assigned inside a `for` body and never used
     outside the loop is local to one iteration;
   * TRUSTED primitive: `<device>.get_nowait(name, default)` (contract in Model/PyPreludeStruct.lean).
+Round 8, continued (sensor sections):
+  * `try: S  finally: F` where S assigns nothing and F has no return / continue / break / raise: the outcome of S (fell
+    through / returned / raised) is a value `PyM (Option V)` computed BEFORE F; F runs; then the outcome takes effect;
+  * TRUSTED primitive `X.from_bytes(data, offset)` for a struct-backed wire type X of helpers/data_types.py
+    (`Py.wire_from_bytes "X" fmt`): the format is folded from `class X(BuiltInDataType[...]): _struct = struct.Struct(fmt)`
+    in the SOURCE (a class body holding anything else is rejected); contract = Props/TieTypes.lean (class translator);
+  * `math.isnan(x)`; a wire float is `V.float width bits` (only `isnan` and `> 0` are defined on it).
 Ignored (documented, trusted): decorators (`@timeout`, `@cache`), docstrings, type annotations,
 `_LOGGER.*(...)` statements, the arguments (messages) of raised exceptions, `from e` chaining.
 """
@@ -73,6 +80,20 @@ TARGETS = [
     ("pyplumio/structures/thermostat_parameters.py", "ThermostatParametersStructure._thermostat_parameter"),
     ("pyplumio/structures/thermostat_parameters.py", "ThermostatParametersStructure._thermostat_parameters"),
     ("pyplumio/structures/thermostat_parameters.py", "ThermostatParametersStructure.decode"),
+    # round 8 (W1b): the sensor sections
+    ("pyplumio/structures/thermostat_sensors.py", "ThermostatSensorsStructure._unpack_thermostat_sensors"),
+    ("pyplumio/structures/thermostat_sensors.py", "ThermostatSensorsStructure._thermostat_sensors"),
+    ("pyplumio/structures/thermostat_sensors.py", "ThermostatSensorsStructure.decode"),
+    ("pyplumio/structures/mixer_sensors.py", "MixerSensorsStructure._unpack_mixer_sensors"),
+    ("pyplumio/structures/mixer_sensors.py", "MixerSensorsStructure._mixer_sensors"),
+    ("pyplumio/structures/mixer_sensors.py", "MixerSensorsStructure.decode"),
+    ("pyplumio/structures/fuel_level.py", "FuelLevelStructure.decode"),
+    ("pyplumio/structures/boiler_load.py", "BoilerLoadStructure.decode"),
+    ("pyplumio/structures/pending_alerts.py", "PendingAlertsStructure.decode"),
+    ("pyplumio/structures/fan_power.py", "FanPowerStructure.decode"),
+    ("pyplumio/structures/boiler_power.py", "BoilerPowerStructure.decode"),
+    ("pyplumio/structures/fuel_consumption.py", "FuelConsumptionStructure.decode"),
+    ("pyplumio/structures/output_flags.py", "OutputFlagsStructure.decode"),
 ]
 
 EXCEPTIONS = {
@@ -424,6 +445,32 @@ class Translator:
             out.append((k, v))
         return DataObj(cls.name, out, partial)
 
+    def wire_format(self, mod, cls):
+        """the struct format of a struct-backed wire type of helpers/data_types.py, from the SOURCE: the class body is
+        exactly `__slots__ = ()` and `_struct = struct.Struct(<fmt>)` (nothing overridden), its only base BuiltInDataType"""
+        if mod.rel != "pyplumio/helpers/data_types.py":
+            raise Unsupported(f"{cls.name}.from_bytes: not a class of helpers/data_types.py")
+        bases = [b.value.id if isinstance(b, ast.Subscript) and isinstance(b.value, ast.Name) else (b.id if isinstance(b, ast.Name) else "?")
+                 for b in cls.bases]
+        if bases != ["BuiltInDataType"]:
+            raise Unsupported(f"{cls.name}.from_bytes: only the struct-backed wire types (base BuiltInDataType) are primitives")
+        fmt = None
+        for st in cls.body:
+            if isinstance(st, ast.Expr) and isinstance(st.value, ast.Constant) and isinstance(st.value.value, str):
+                continue
+            if isinstance(st, ast.Assign) and len(st.targets) == 1 and isinstance(st.targets[0], ast.Name):
+                if st.targets[0].id == "__slots__":
+                    continue
+                if st.targets[0].id == "_struct":
+                    v = self.fold(mod, st.value)
+                    if isinstance(v, StructFmt):
+                        fmt = v.fmt
+                        continue
+            raise Unsupported(f"{cls.name}.from_bytes: the class body holds more than __slots__ and _struct (line {st.lineno})")
+        if fmt is None:
+            raise Unsupported(f"{cls.name}.from_bytes: no _struct = struct.Struct(...) in the class")
+        return fmt
+
     def class_fields(self, cls):
         return [st.target.id for st in cls.body if isinstance(st, ast.AnnAssign) and isinstance(st.target, ast.Name)
                 and st.target.id != "__slots__"]
@@ -582,6 +629,9 @@ class Translator:
         out += ["  | _, _ => none", "",
                 "/-- the functions translated from the source, in dependency order -/",
                 "def functions : List String := [" + ", ".join(lean_str(self.funcs[k]["qual"]) for k, _ in self.order) + "]",
+                "", "/-- the methods translated with the instance as first argument (they read / assign attributes of `self`) -/",
+                "def statefulFunctions : List String := [" + ", ".join(lean_str(self.funcs[k]["qual"]) for k, _ in self.order
+                                                                        if self.funcs[k]["stateful"]) + "]",
                 "", "end PlumVerif.PyCode", ""]
         return "\n".join(out)
 
@@ -979,6 +1029,13 @@ class FnTranslator:
                     cls = r[2]
                     if cls.name == "Frame" and f.attr == "create" and awaited and r[1].rel == "pyplumio/frames/__init__.py":
                         return self.frame_create(n, r[1], cls)
+                    if f.attr == "from_bytes" and not n.keywords and len(n.args) in (1, 2):
+                        # TRUSTED primitive (contract: Props/TieTypes.lean about the translated classes): X.from_bytes(data, offset)
+                        # of a struct-backed wire type; the struct format is folded from the class in the SOURCE
+                        fmt = self.tr.wire_format(r[1], cls)
+                        lines, atoms = self.seq(n.args)
+                        off = atoms[1] if len(atoms) == 2 else "(V.int 0)"
+                        return lines, self.bind(lines, f"{self.P('wire_from_bytes')} {lean_str(cls.name)} {lean_str(fmt)} {atoms[0]} {off}")
                     self.fail(n, f"{cls.name}.{f.attr}(...)")
                 if r and r[0] == "def":
                     # method of a module-level constant object: struct_header.unpack_from(buffer)
@@ -991,6 +1048,9 @@ class FnTranslator:
                         return lines, self.bind(lines, f"{self.P('struct_unpack_from')} {lean_str(v.fmt)} {a}")
                     self.fail(n, f"method {f.attr} of module-level value {f.value.id}")
                 if r and r[0] == "ext":
+                    if r[1] == "math" and r[2] is None and f.attr == "isnan" and len(n.args) == 1 and not n.keywords:
+                        lines, a = self.expr(n.args[0])
+                        return lines, self.bind(lines, f"{self.P('math_isnan')} {a}")
                     self.fail(n, f"call of {r[1]}.{f.attr}")
             # methods of values
             if f.attr == "to_bytes":
@@ -1487,7 +1547,34 @@ class FnTranslator:
                 self.fail(st, f"except {e.id}")
         return "[" + ", ".join(out) + "]"
 
+    def try_finally(self, st, rest, k, out):
+        """`try: S  finally: F` where S assigns nothing (no local, no attribute of self, no yield) and F has no
+        return / continue / break: the outcome of S (fell through / returned a value / raised) is a VALUE `PyM (Option V)`;
+        F runs next, whatever the outcome (an exception of F supersedes it); then the outcome takes effect"""
+        if self.is_async:
+            self.fail(st, "try ... finally in a coroutine")
+        if self.assigned(st.body):
+            self.fail(st, "try ... finally whose body assigns a variable / an attribute of self / yields")
+        if has_transfer(st.finalbody) or any(isinstance(n, (ast.While, ast.Raise)) for f in st.finalbody for n in ast.walk(f)):
+            self.fail(st, "return / continue / break / raise / while inside a finally block")
+        if any(isinstance(n, (ast.Continue, ast.Break, ast.NamedExpr)) for b in st.body for n in ast.walk(b)):
+            self.fail(st, "continue / break / assignment expression inside try ... finally")
+        t, r = self.fresh(), self.fresh()
+        saved, saved_bound = (self.ret, self.cont, self.brk), set(self.bound)
+        self.ret = lambda atom: [f"pure (some {atom})"]
+        self.cont = self.brk = None
+        body = self.block(list(st.body), lambda: ["pure Option.none"])
+        self.ret, self.cont, self.brk = saved
+        self.bound = saved_bound
+        out += [f"let {t} : PyM (Option V) := (do"] + indent(body, 4) + ["  )", "-- finally:"]
+        out += self.block(list(st.finalbody), lambda: [])
+        out += [f"match {t} with", "| .error e => throw e", f"| .ok (some {r}) => do"] + indent(self.ret(r)) + \
+               ["| .ok Option.none => do"] + indent(self.block(list(rest), k))
+        return True
+
     def try_(self, st, rest, k, out):
+        if st.finalbody and not st.handlers and not st.orelse:
+            return self.try_finally(st, rest, k, out)
         if st.finalbody or st.orelse or len(st.handlers) != 1:
             self.fail(st, "try with finally / else / several handlers")
         h = st.handlers[0]
